@@ -697,6 +697,8 @@ impl XGen {
     }
 
     pub fn pred(&self, r: &mut Rng, depth: usize, positional_ok: bool) -> Expr {
+        // language tests on whatever the step selected (nearest xml:lang wins; nested and shadowing declarations are generated)
+        if self.funcs.contains(&"lang") && r.chance(1, 14) { return Expr::Func("lang".into(), vec![Expr::Lit(r.pick_s(&["en", "EN", "de", "fr", "e", ""]).to_string())]); }
         match r.below(10) {
             0 | 1 if positional_ok => Expr::Num(r.pick_s(&["1", "2", "3", "1.5", "0"]).to_string()),
             2 if positional_ok => Expr::Bin(*r.pick(&[Op::Eq, Op::Lt, Op::Ge, Op::Ne]), Box::new(Expr::Func("position".into(), vec![])), Box::new(if r.chance(1, 2) { Expr::Func("last".into(), vec![]) } else { Expr::Num(r.pick_s(&["1", "2"]).to_string()) })),
@@ -770,7 +772,7 @@ impl XGen {
                 "substring" if i > 0 => self.number(r, depth + 1),
                 "floor" | "ceiling" | "round" | "number" => if r.chance(1, 2) { self.number(r, depth + 1) } else { self.any(r, depth + 1) },
                 "boolean" | "not" => self.any(r, depth + 1),
-                "lang" => Expr::Lit(r.pick_s(&["en", "EN", "e", "en-US", ""]).to_string()),
+                "lang" => Expr::Lit(r.pick_s(&["en", "EN", "e", "en-US", "", "de", "fr", "fr-ca"]).to_string()),
                 _ => if r.chance(2, 3) { self.string(r, depth + 1) } else { self.any(r, depth + 1) },
             };
             args.push(a);
